@@ -152,3 +152,26 @@ pub(crate) fn ref_entry(p: &[u8], at: usize, offset: u32) -> IndexBlob {
         location: BlobLocation { offset, length: u32::from_le_bytes([p[at + 1], p[at + 2], p[at + 3], p[at + 4]]), uncompressed_length: None },
     }
 }
+
+/// as stub_header_decode2 for one uncompressed entry followed by one compressed entry
+/// `[type: 2 = data / 3 = tree][length: u32 LE][uncompressed length: u32 LE][id: 32 bytes]`
+pub(crate) fn stub_header_decode_uc(pack: &[u8]) -> PackFileResult<PackHeader> {
+    assert!(pack.len() == 78, "the header decoder was handed a region that is not the decrypted trailer");
+    let e0 = ref_entry(pack, 0, 0);
+    let e1 = ref_entry_comp(pack, 37, e0.location.length);
+    Ok(PackHeader(vec![e0, e1]))
+}
+pub(crate) fn ref_entry_comp(p: &[u8], at: usize, offset: u32) -> IndexBlob {
+    let mut id = [0u8; 32];
+    let mut k = 0;
+    while k < 32 { id[k] = p[at + 9 + k]; k += 1; }
+    IndexBlob {
+        id: BlobId::from(crate::id::Id::new(id)),
+        tpe: if p[at] == 2 { BlobType::Data } else { BlobType::Tree },
+        location: BlobLocation {
+            offset,
+            length: u32::from_le_bytes([p[at + 1], p[at + 2], p[at + 3], p[at + 4]]),
+            uncompressed_length: NonZeroU32::new(u32::from_le_bytes([p[at + 5], p[at + 6], p[at + 7], p[at + 8]])),
+        },
+    }
+}
